@@ -280,6 +280,21 @@ func (idx *PQIndex) Add(vector VectorNode) error {
 		return err
 	}
 
+	// Re-adding a soft-deleted ID replaces the stale entry instead of hiding the new one
+	if idx.deletedNodes.Contains(vector.ID()) {
+		keptCodes := make([][]uint8, 0, len(idx.codes))
+		keptNodes := make([]VectorNode, 0, len(idx.vectorNodes))
+		for i, v := range idx.vectorNodes {
+			if v.ID() != vector.ID() {
+				keptCodes = append(keptCodes, idx.codes[i])
+				keptNodes = append(keptNodes, v)
+			}
+		}
+		idx.codes = keptCodes
+		idx.vectorNodes = keptNodes
+		idx.deletedNodes.Remove(vector.ID())
+	}
+
 	// Encode vector into PQ code
 	code := idx.encode(vector.Vector())
 
